@@ -1,10 +1,1484 @@
-//! C08 — not built yet.
-use crate::{sx::Sx, Emitter};
+//! C08 — event authorization: cases and the verdict of the real `ruma_state_res::auth_check`.
+//!
+//! case  = ( version event state oracle )
+//! event = ( id room sender type skey? content ( prev.. ) ( auth.. ) redacts? )
+//! state = ( ( type key event ) .. )            first entry for a key wins
+//! oracle = ( ( key_id signature public_key ) .. )  triples on which ruma's third-party-invite
+//!          signature check (key id parses, both decode, verify_canonical_json_bytes Ok) succeeds
+//! outcome = (0 ()) accepted | (1 0) rejected | (2) panic
+use std::cell::RefCell;
 
-pub fn run(_tier: &str, _seed: u64, _em: &mut Emitter) {}
+use ruma_common::{
+    serde::{base64::Standard, Base64},
+    third_party_invite::IdentityServerBase64PublicKey,
+    AnyKeyName, CanonicalJsonObject, CanonicalJsonValue, MilliSecondsSinceUnixEpoch, OwnedEventId, OwnedRoomId,
+    OwnedUserId, RoomId, RoomVersionId, SigningKeyId, UserId,
+};
+use ruma_events::{StateEventType, TimelineEventType};
+use ruma_state_res::{auth_check, Event};
+use serde_json::{json, value::RawValue};
 
-pub fn replay(_case: &Sx) -> Option<Sx> {
-    None
+use crate::{
+    jgen::{gen_json, gen_str},
+    rng::Rng,
+    sx::{guarded, obj_to_sx, sx_to_obj, Sx},
+    Emitter,
+};
+
+// ---------------------------------------------------------------------------------------------
+// Events, state, the Event trait
+// ---------------------------------------------------------------------------------------------
+#[derive(Clone, Debug)]
+pub struct Ev {
+    pub id: OwnedEventId,
+    pub room: OwnedRoomId,
+    pub sender: OwnedUserId,
+    pub ty: TimelineEventType,
+    pub skey: Option<String>,
+    pub content: CanonicalJsonObject,
+    pub raw: Box<RawValue>,
+    pub prev: Vec<OwnedEventId>,
+    pub auth: Vec<OwnedEventId>,
+    pub redacts: Option<OwnedEventId>,
 }
 
-pub fn dump(_dir: &str) {}
+impl Event for Ev {
+    type Id = OwnedEventId;
+    fn event_id(&self) -> &Self::Id {
+        &self.id
+    }
+    fn room_id(&self) -> &RoomId {
+        &self.room
+    }
+    fn sender(&self) -> &UserId {
+        &self.sender
+    }
+    fn origin_server_ts(&self) -> MilliSecondsSinceUnixEpoch {
+        MilliSecondsSinceUnixEpoch(js_int::UInt::MIN)
+    }
+    fn event_type(&self) -> &TimelineEventType {
+        &self.ty
+    }
+    fn content(&self) -> &RawValue {
+        &self.raw
+    }
+    fn state_key(&self) -> Option<&str> {
+        self.skey.as_deref()
+    }
+    fn prev_events(&self) -> Box<dyn DoubleEndedIterator<Item = &Self::Id> + '_> {
+        Box::new(self.prev.iter())
+    }
+    fn auth_events(&self) -> Box<dyn DoubleEndedIterator<Item = &Self::Id> + '_> {
+        Box::new(self.auth.iter())
+    }
+    fn redacts(&self) -> Option<&Self::Id> {
+        self.redacts.as_ref()
+    }
+}
+
+pub fn cj(v: serde_json::Value) -> CanonicalJsonValue {
+    CanonicalJsonValue::try_from(v).expect("canonical json")
+}
+
+pub fn cobj(v: serde_json::Value) -> CanonicalJsonObject {
+    match cj(v) {
+        CanonicalJsonValue::Object(o) => o,
+        _ => panic!("object expected"),
+    }
+}
+
+pub fn mk_ev(id: &str, room: &str, sender: &str, ty: &str, skey: Option<&str>, content: CanonicalJsonObject) -> Ev {
+    let raw = serde_json::value::to_raw_value(&content).unwrap();
+    Ev {
+        id: OwnedEventId::try_from(id).expect("event id"),
+        room: OwnedRoomId::try_from(room).expect("room id"),
+        sender: OwnedUserId::try_from(sender).expect("user id"),
+        ty: TimelineEventType::from(ty),
+        skey: skey.map(str::to_owned),
+        content,
+        raw,
+        prev: vec![],
+        auth: vec![],
+        redacts: None,
+    }
+}
+
+impl Ev {
+    pub fn set_content(&mut self, content: CanonicalJsonObject) {
+        self.raw = serde_json::value::to_raw_value(&content).unwrap();
+        self.content = content;
+    }
+}
+
+pub type State = Vec<((String, String), Ev)>;
+
+#[derive(Clone)]
+pub struct Case {
+    pub v: u32,
+    pub ev: Ev,
+    pub state: State,
+}
+
+pub fn state_get<'a>(st: &'a State, ty: &str, key: &str) -> Option<&'a Ev> {
+    st.iter().find(|((t, k), _)| t == ty && k == key).map(|(_, e)| e)
+}
+
+pub fn rules_of(v: u32) -> ruma_common::room_version_rules::AuthorizationRules {
+    RoomVersionId::try_from(v.to_string().as_str()).unwrap().rules().unwrap().authorization
+}
+
+/// Run the real `auth_check`; returns the verdict and the (type, key) pairs `fetch_state` was asked for.
+pub fn run_auth(v: u32, ev: &Ev, state: &State) -> (Sx, Vec<(String, String)>) {
+    let rules = rules_of(v);
+    let reads: RefCell<Vec<(String, String)>> = RefCell::new(vec![]);
+    let out = {
+        let reads = &reads;
+        let ev = ev.clone();
+        let f = std::panic::AssertUnwindSafe(move || {
+            let fetch = |ty: &StateEventType, key: &str| -> Option<Ev> {
+                reads.borrow_mut().push((ty.to_string(), key.to_owned()));
+                state_get(state, &ty.to_string(), key).cloned()
+            };
+            match auth_check(&rules, ev, fetch) {
+                Ok(()) => Sx::ok(Sx::L(vec![])),
+                Err(_) => Sx::err(0),
+            }
+        });
+        guarded(f)
+    };
+    (out, reads.into_inner())
+}
+
+// ---------------------------------------------------------------------------------------------
+// Wire encoding
+// ---------------------------------------------------------------------------------------------
+pub fn ev_to_sx(e: &Ev) -> Sx {
+    Sx::L(vec![
+        Sx::s(e.id.as_str()),
+        Sx::s(e.room.as_str()),
+        Sx::s(e.sender.as_str()),
+        Sx::s(&e.ty.to_string()),
+        Sx::opt(e.skey.as_deref().map(Sx::s)),
+        obj_to_sx(&e.content),
+        Sx::L(e.prev.iter().map(|i| Sx::s(i.as_str())).collect()),
+        Sx::L(e.auth.iter().map(|i| Sx::s(i.as_str())).collect()),
+        Sx::opt(e.redacts.as_ref().map(|i| Sx::s(i.as_str()))),
+    ])
+}
+
+pub fn state_to_sx(st: &State) -> Sx {
+    Sx::L(st.iter().map(|((t, k), e)| Sx::L(vec![Sx::s(t), Sx::s(k), ev_to_sx(e)])).collect())
+}
+
+pub fn sx_to_ev(x: &Sx) -> Option<Ev> {
+    let l = x.as_list()?;
+    if l.len() != 9 {
+        return None;
+    }
+    let skey = match l[4].as_opt()? {
+        None => None,
+        Some(s) => Some(s.as_string()?),
+    };
+    let mut e = Ev {
+        id: OwnedEventId::try_from(l[0].as_string()?).ok()?,
+        room: OwnedRoomId::try_from(l[1].as_string()?).ok()?,
+        sender: OwnedUserId::try_from(l[2].as_string()?).ok()?,
+        ty: TimelineEventType::from(l[3].as_string()?),
+        skey,
+        content: CanonicalJsonObject::new(),
+        raw: RawValue::from_string("{}".to_owned()).unwrap(),
+        prev: vec![],
+        auth: vec![],
+        redacts: None,
+    };
+    e.set_content(sx_to_obj(&l[5])?);
+    for i in l[6].as_list()? {
+        e.prev.push(OwnedEventId::try_from(i.as_string()?).ok()?);
+    }
+    for i in l[7].as_list()? {
+        e.auth.push(OwnedEventId::try_from(i.as_string()?).ok()?);
+    }
+    if let Some(r) = l[8].as_opt()? {
+        e.redacts = Some(OwnedEventId::try_from(r.as_string()?).ok()?);
+    }
+    Some(e)
+}
+
+pub fn sx_to_state(x: &Sx) -> Option<State> {
+    let mut st = vec![];
+    for it in x.as_list()? {
+        let l = it.as_list()?;
+        st.push(((l.first()?.as_string()?, l.get(1)?.as_string()?), sx_to_ev(l.get(2)?)?));
+    }
+    Some(st)
+}
+
+/// The `signed` object ruma would extract from the member event's `third_party_invite`.
+fn signed_of(ev: &Ev) -> Option<CanonicalJsonObject> {
+    match ev.content.get("third_party_invite")? {
+        CanonicalJsonValue::Object(t) => t.get("signed")?.as_object().cloned(),
+        CanonicalJsonValue::Array(a) if a.len() == 1 => a[0].as_object().cloned(),
+        _ => None,
+    }
+}
+
+fn key_strings(te: &Ev, out: &mut Vec<String>) {
+    if let Some(CanonicalJsonValue::String(s)) = te.content.get("public_key") {
+        out.push(s.clone());
+    }
+    if let Some(CanonicalJsonValue::Array(a)) = te.content.get("public_keys") {
+        for k in a {
+            match k {
+                CanonicalJsonValue::Object(o) => {
+                    if let Some(CanonicalJsonValue::String(s)) = o.get("public_key") {
+                        out.push(s.clone());
+                    }
+                }
+                CanonicalJsonValue::Array(b) => {
+                    if let Some(CanonicalJsonValue::String(s)) = b.first() {
+                        out.push(s.clone());
+                    }
+                }
+                _ => {}
+            }
+        }
+    }
+}
+
+/// One application of the signature check of room_member.rs:311-337 (ruma-signatures is C02's subject).
+fn verify_one(kid: &str, sig: &str, pk: &str, canonical: &str) -> bool {
+    let Ok(parsed) = <&SigningKeyId<AnyKeyName>>::try_from(kid) else { return false };
+    let alg = parsed.algorithm();
+    let Ok(sig) = Base64::<Standard>::parse(sig) else { return false };
+    let Ok(pk) = IdentityServerBase64PublicKey(pk.to_owned()).decode() else { return false };
+    ruma_signatures::verify_canonical_json_bytes(&alg, &pk, sig.as_bytes(), canonical.as_bytes()).is_ok()
+}
+
+pub fn oracle(ev: &Ev, state: &State) -> Sx {
+    let mut out = vec![];
+    let Some(signed) = signed_of(ev) else { return Sx::L(out) };
+    let Ok(canonical) = ruma_signatures::canonical_json(&signed) else { return Sx::L(out) };
+    let mut keys = vec![];
+    for ((t, _), e) in state {
+        if t == "m.room.third_party_invite" {
+            key_strings(e, &mut keys);
+        }
+    }
+    keys.sort();
+    keys.dedup();
+    if let Some(CanonicalJsonValue::Object(sigs)) = signed.get("signatures") {
+        for ent in sigs.values() {
+            if let CanonicalJsonValue::Object(ent) = ent {
+                for (kid, sv) in ent {
+                    if let CanonicalJsonValue::String(sg) = sv {
+                        for pk in &keys {
+                            if verify_one(kid, sg, pk, &canonical) {
+                                out.push(Sx::L(vec![Sx::s(kid), Sx::s(sg), Sx::s(pk)]));
+                            }
+                        }
+                    }
+                }
+            }
+        }
+    }
+    Sx::L(out)
+}
+
+pub fn case_sx(c: &Case) -> Sx {
+    Sx::L(vec![Sx::n(c.v), ev_to_sx(&c.ev), state_to_sx(&c.state), oracle(&c.ev, &c.state)])
+}
+
+pub fn sx_to_case(x: &Sx) -> Option<Case> {
+    let l = x.as_list()?;
+    let v = l.first()?.as_int()?;
+    if !(1..=11).contains(&v) {
+        return None;
+    }
+    Some(Case { v: v as u32, ev: sx_to_ev(l.get(1)?)?, state: sx_to_state(l.get(2)?)? })
+}
+
+// ---------------------------------------------------------------------------------------------
+// World building
+// ---------------------------------------------------------------------------------------------
+pub const ROOM: &str = "!room:s1";
+pub const CREATOR: &str = "@creator:s1";
+pub const ALICE: &str = "@alice:s1";
+pub const BOB: &str = "@bob:s1";
+pub const DAVE: &str = "@dave:s1";
+pub const EVE: &str = "@eve:s2";
+
+pub fn eid(v: u32, name: &str) -> String {
+    if v <= 2 {
+        format!("${name}:s1")
+    } else {
+        format!("${name}")
+    }
+}
+
+/// Membership shapes of a user in the current state.
+pub const N_MEMB: usize = 8;
+pub fn memb_content(i: usize) -> Option<CanonicalJsonObject> {
+    match i {
+        0 => None,
+        1 => Some(cobj(json!({"membership": "join"}))),
+        2 => Some(cobj(json!({"membership": "invite"}))),
+        3 => Some(cobj(json!({"membership": "leave"}))),
+        4 => Some(cobj(json!({"membership": "ban"}))),
+        5 => Some(cobj(json!({"membership": "knock"}))),
+        6 => Some(cobj(json!({"membership": "weird"}))),
+        _ => Some(cobj(json!({"membership": 5, "Membership": "join"}))),
+    }
+}
+
+/// Join-rule shapes.
+pub const N_JR: usize = 8;
+pub fn jr_content(i: usize) -> Option<CanonicalJsonObject> {
+    match i {
+        0 => Some(cobj(json!({"join_rule": "public"}))),
+        1 => Some(cobj(json!({"join_rule": "invite"}))),
+        2 => Some(cobj(json!({"join_rule": "knock"}))),
+        3 => Some(cobj(json!({"join_rule": "restricted", "allow": []}))),
+        4 => Some(cobj(json!({"join_rule": "knock_restricted"}))),
+        5 => Some(cobj(json!({"join_rule": "weird"}))),
+        6 => None,
+        _ => Some(cobj(json!({"join_rule": ["public"]}))),
+    }
+}
+
+impl Case {
+    /// A room created by CREATOR (joined); the candidate event is a message by ALICE.
+    pub fn base(v: u32) -> Case {
+        let mut create =
+            mk_ev(&eid(v, "create"), ROOM, CREATOR, "m.room.create", Some(""), cobj(json!({"creator": CREATOR})));
+        create.prev = vec![];
+        let mut c = Case { v, ev: create.clone(), state: vec![] };
+        c.set("m.room.create", "", Some(create));
+        c.set_member(CREATOR, 1);
+        c.ev = c.mk("m.room.message", ALICE, None, cobj(json!({"body": "hi"})));
+        c
+    }
+    pub fn create_id(&self) -> OwnedEventId {
+        OwnedEventId::try_from(eid(self.v, "create")).unwrap()
+    }
+    /// A candidate event with the usual auth/prev events.
+    pub fn mk(&self, ty: &str, sender: &str, skey: Option<&str>, content: CanonicalJsonObject) -> Ev {
+        let mut e = mk_ev(&eid(self.v, "ev"), ROOM, sender, ty, skey, content);
+        e.auth = vec![self.create_id()];
+        e.prev = vec![OwnedEventId::try_from(eid(self.v, "prev")).unwrap()];
+        e
+    }
+    pub fn set(&mut self, ty: &str, key: &str, e: Option<Ev>) {
+        self.state.retain(|((t, k), _)| !(t == ty && k == key));
+        if let Some(e) = e {
+            self.state.push(((ty.to_owned(), key.to_owned()), e));
+        }
+    }
+    pub fn set_content(&mut self, ty: &str, key: &str, sender: &str, content: Option<CanonicalJsonObject>) {
+        let e = content.map(|c| mk_ev(&eid(self.v, &format!("st{}", self.state.len())), ROOM, sender, ty, Some(key), c));
+        self.set(ty, key, e);
+    }
+    pub fn set_member(&mut self, user: &str, m: usize) {
+        let sender = if <&UserId>::try_from(user).is_ok() { user } else { CREATOR };
+        self.set_content("m.room.member", user, sender, memb_content(m));
+    }
+    pub fn set_jr(&mut self, j: usize) {
+        self.set_content("m.room.join_rules", "", CREATOR, jr_content(j));
+    }
+    pub fn set_pl(&mut self, content: Option<CanonicalJsonObject>) {
+        self.set_content("m.room.power_levels", "", CREATOR, content);
+    }
+    pub fn create_mut(&mut self) -> &mut Ev {
+        &mut self.state.iter_mut().find(|((t, k), _)| t == "m.room.create" && k.is_empty()).unwrap().1
+    }
+}
+
+/// A level value as it appears in JSON.
+#[derive(Clone, Debug)]
+pub enum Lv {
+    Absent,
+    Int(i64),
+    Str(String),
+    Raw(CanonicalJsonValue),
+}
+
+impl Lv {
+    fn put(&self, o: &mut CanonicalJsonObject, k: &str) {
+        match self {
+            Lv::Absent => {}
+            Lv::Int(i) => {
+                o.insert(k.to_owned(), cj(json!(i)));
+            }
+            Lv::Str(s) => {
+                o.insert(k.to_owned(), CanonicalJsonValue::String(s.clone()));
+            }
+            Lv::Raw(v) => {
+                o.insert(k.to_owned(), v.clone());
+            }
+        }
+    }
+}
+
+/// Styles in which the number `x` is written.
+pub fn styles(x: i64) -> Vec<Lv> {
+    vec![Lv::Int(x), Lv::Str(x.to_string()), Lv::Str(format!(" {}{} ", if x >= 0 { "+" } else { "" }, x))]
+}
+
+#[derive(Clone, Default)]
+pub struct Pl {
+    pub fields: Vec<(&'static str, Lv)>,
+    pub users: Option<Vec<(String, Lv)>>,
+    pub events: Option<Vec<(String, Lv)>>,
+    pub notifications: Option<Vec<(String, Lv)>>,
+    pub extra: Vec<(&'static str, CanonicalJsonValue)>,
+}
+
+impl Pl {
+    pub fn content(&self) -> CanonicalJsonObject {
+        let mut o = CanonicalJsonObject::new();
+        for (k, v) in &self.fields {
+            v.put(&mut o, k);
+        }
+        let map = |m: &Vec<(String, Lv)>| {
+            let mut x = CanonicalJsonObject::new();
+            for (k, v) in m {
+                v.put(&mut x, k);
+            }
+            CanonicalJsonValue::Object(x)
+        };
+        if let Some(u) = &self.users {
+            o.insert("users".into(), map(u));
+        }
+        if let Some(u) = &self.events {
+            o.insert("events".into(), map(u));
+        }
+        if let Some(u) = &self.notifications {
+            o.insert("notifications".into(), map(u));
+        }
+        for (k, v) in &self.extra {
+            o.insert((*k).to_owned(), v.clone());
+        }
+        o
+    }
+    pub fn user(mut self, u: &str, l: Lv) -> Self {
+        self.users.get_or_insert_with(Vec::new).push((u.to_owned(), l));
+        self
+    }
+    pub fn field(mut self, f: &'static str, l: Lv) -> Self {
+        self.fields.push((f, l));
+        self
+    }
+    pub fn event(mut self, t: &str, l: Lv) -> Self {
+        self.events.get_or_insert_with(Vec::new).push((t.to_owned(), l));
+        self
+    }
+    pub fn notif(mut self, t: &str, l: Lv) -> Self {
+        self.notifications.get_or_insert_with(Vec::new).push((t.to_owned(), l));
+        self
+    }
+}
+
+// ---------------------------------------------------------------------------------------------
+// Generation
+// ---------------------------------------------------------------------------------------------
+pub struct Gen<'a> {
+    pub thorough: bool,
+    pub rng: Rng,
+    pub sink: &'a mut dyn FnMut(&str, &Case),
+    pub n: u64,
+}
+
+impl Gen<'_> {
+    /// Emit always in the thorough tier; in the quick tier keep one in `one_in` (deterministic).
+    pub fn emit(&mut self, tag: &str, c: &Case, one_in: usize) {
+        if self.thorough || one_in <= 1 || self.rng.below(one_in) == 0 {
+            (self.sink)(tag, c);
+            self.n += 1;
+        }
+    }
+}
+
+const BAD_LEVELS: &[&str] = &["null", "true", "[]", "{}", "\"x\"", "\"\"", "[50]"];
+
+fn bad_level(i: usize) -> Lv {
+    Lv::Raw(cj(serde_json::from_str(BAD_LEVELS[i % BAD_LEVELS.len()]).unwrap()))
+}
+
+/// Strings offered as power levels (v1-v9 accept some of them).
+pub const LEVEL_STRINGS: &[&str] = &[
+    "50", " 50", "50 ", "\t50\n", "+50", "-50", "++50", "+-50", "-+50", "--50", "050", "+050", "5 0", "", " ", "+", "-",
+    "+ 50", "- 50", "9007199254740991", "9007199254740992", "+9007199254740991", "+9007199254740992",
+    "-9007199254740991", "-9007199254740992", "99999999999999999999999", "-99999999999999999999999",
+    "\u{a0}50\u{2003}", "\u{3000}50", "50\u{85}", "\u{200b}50", "0x32", "5e1", "50.0", "\u{ff15}\u{ff10}", "5_0", "+0", "-0",
+    "00", "\u{1680}51\u{205f}", "50\u{0}", "\u{feff}50",
+];
+
+fn sys_create(g: &mut Gen<'_>, v: u32) {
+    for prev in 0..2 {
+        for room in ["!room:s1", "!room:s2", "!room", "!room:s 1", "!room:s1:8448", "!room:", "!ro:om:s1"] {
+            for (ci, creator) in ["absent", "null", "str", "int", "baduid"].iter().enumerate() {
+                for sender in [CREATOR, EVE, "@c:s1:8448"] {
+                    let mut content = cobj(json!({"room_version": v.to_string()}));
+                    match *creator {
+                        "null" => {
+                            content.insert("creator".into(), CanonicalJsonValue::Null);
+                        }
+                        "str" => {
+                            content.insert("creator".into(), cj(json!(sender)));
+                        }
+                        "int" => {
+                            content.insert("creator".into(), cj(json!(5)));
+                        }
+                        "baduid" => {
+                            content.insert("creator".into(), cj(json!("creator")));
+                        }
+                        _ => {}
+                    }
+                    let mut ev = mk_ev(&eid(v, "create"), room, sender, "m.room.create", Some(""), content);
+                    if prev == 1 {
+                        ev.prev = vec![OwnedEventId::try_from(eid(v, "prev")).unwrap()];
+                    }
+                    let _ = ci;
+                    // state is irrelevant for create events; give it something anyway
+                    let mut c = Case::base(v);
+                    c.ev = ev;
+                    g.emit("sys-create", &c, 1);
+                }
+            }
+        }
+    }
+}
+
+fn federate_value(i: usize) -> Option<CanonicalJsonValue> {
+    match i {
+        0 => None,
+        1 => Some(cj(json!(true))),
+        2 => Some(cj(json!(false))),
+        3 => Some(CanonicalJsonValue::Null),
+        4 => Some(cj(json!("false"))),
+        _ => Some(cj(json!(0))),
+    }
+}
+
+/// The candidate events used to exercise the rules every non-create event passes first.
+fn preamble_kinds(c: &Case) -> Vec<Ev> {
+    let srv = |u: &str| u.split_once(':').unwrap().1.to_owned();
+    let mut out = vec![];
+    for sender in [ALICE, EVE, "@alice:s1:8448"] {
+        out.push(c.mk("m.room.message", sender, None, cobj(json!({"body": "x"}))));
+        out.push(c.mk("m.room.member", sender, Some(sender), cobj(json!({"membership": "join"}))));
+        out.push(c.mk("m.room.aliases", sender, Some(&srv(sender)), cobj(json!({"aliases": []}))));
+        out.push(c.mk("m.room.aliases", sender, Some("s1"), cobj(json!({"aliases": []}))));
+        out.push(c.mk("m.room.aliases", sender, None, cobj(json!({"aliases": []}))));
+        out.push(c.mk("m.room.aliases", sender, Some(sender), cobj(json!({"aliases": []}))));
+    }
+    out
+}
+
+fn sys_preamble(g: &mut Gen<'_>, v: u32) {
+    for create_in_state in 0..2 {
+        for auth in 0..4 {
+            for fed in 0..6 {
+                for create_sender in [CREATOR, EVE] {
+                    for sender_m in [1usize, 3] {
+                        let mut c = Case::base(v);
+                        c.set_jr(0);
+                        for u in [ALICE, EVE, "@alice:s1:8448"] {
+                            c.set_member(u, sender_m);
+                        }
+                        {
+                            let ce = c.create_mut();
+                            ce.sender = OwnedUserId::try_from(create_sender).unwrap();
+                            let mut content = ce.content.clone();
+                            if let Some(f) = federate_value(fed) {
+                                content.insert("m.federate".into(), f);
+                            }
+                            ce.set_content(content);
+                        }
+                        if create_in_state == 0 {
+                            c.set("m.room.create", "", None);
+                        }
+                        for mut ev in preamble_kinds(&c) {
+                            ev.auth = match auth {
+                                0 => vec![c.create_id()],
+                                1 => vec![],
+                                2 => vec![OwnedEventId::try_from(eid(v, "other")).unwrap()],
+                                _ => vec![OwnedEventId::try_from(eid(v, "other")).unwrap(), c.create_id()],
+                            };
+                            let mut c2 = c.clone();
+                            c2.ev = ev;
+                            g.emit("sys-preamble", &c2, 6);
+                        }
+                    }
+                }
+            }
+        }
+    }
+}
+
+/// Shapes of the `creator` of the create event in state (matters for v1-v10 whenever a level is computed).
+fn creator_shapes(c: &Case) -> Vec<Case> {
+    let mut out = vec![];
+    for (i, cr) in [Some(json!(CREATOR)), Some(json!(ALICE)), None, Some(json!(null)), Some(json!(7)), Some(json!("nobody"))]
+        .into_iter()
+        .enumerate()
+    {
+        let mut c2 = c.clone();
+        let ce = c2.create_mut();
+        let mut content = ce.content.clone();
+        content.remove("creator");
+        if let Some(x) = cr {
+            content.insert("creator".into(), cj(x));
+        }
+        ce.set_content(content);
+        if i == 1 {
+            // also make ALICE the sender of the create event (v11's notion of creator)
+            c2.create_mut().sender = OwnedUserId::try_from(ALICE).unwrap();
+        }
+        out.push(c2);
+    }
+    out
+}
+
+/// Power-level events giving `who` the level `lvl` in several ways, and `field` the value `fv`.
+fn pl_variants(who: &str, lvl: i64, field: &'static str, fv: &Lv, other: Option<(&str, i64)>) -> Vec<Pl> {
+    let mut out = vec![];
+    let with_other = |p: Pl| match other {
+        Some((u, l)) => p.user(u, Lv::Int(l)),
+        None => p,
+    };
+    for st in styles(lvl) {
+        out.push(with_other(Pl::default().user(who, st.clone()).field(field, fv.clone())));
+    }
+    // through users_default (other users then share it unless listed)
+    out.push(with_other(Pl::default().field("users_default", Lv::Int(lvl)).field(field, fv.clone())));
+    out.push(with_other(
+        Pl::default().user("@zed:s1", Lv::Int(0)).field("users_default", Lv::Str(lvl.to_string())).field(field, fv.clone()),
+    ));
+    out
+}
+
+fn sys_member_join(g: &mut Gen<'_>, v: u32) {
+    // prev-events shape x creator x sender/target x current membership x join rule
+    for prev in 0..4 {
+        for who in [ALICE, CREATOR] {
+            for other_target in 0..2 {
+                for cm in 0..N_MEMB {
+                    for jr in 0..N_JR {
+                        for au in 0..9 {
+                            let restricted = jr == 3 || jr == 4;
+                            if !restricted && au > 1 {
+                                continue;
+                            }
+                            let mut c = Case::base(v);
+                            c.set_member(CREATOR, 0);
+                            let target = if other_target == 1 { BOB } else { who };
+                            c.set_member(target, cm);
+                            c.set_jr(jr);
+                            let mut content = cobj(json!({"membership": "join"}));
+                            // the authorising user
+                            match au {
+                                0 => {}
+                                1 => {
+                                    content.insert("join_authorised_via_users_server".into(), cj(json!(DAVE)));
+                                    c.set_member(DAVE, 1);
+                                }
+                                2 => {
+                                    content.insert("join_authorised_via_users_server".into(), cj(json!(DAVE)));
+                                    c.set_member(DAVE, 3);
+                                }
+                                3 => {
+                                    content.insert("join_authorised_via_users_server".into(), cj(json!(DAVE)));
+                                }
+                                4 => {
+                                    content.insert("join_authorised_via_users_server".into(), cj(json!(DAVE)));
+                                    c.set_member(DAVE, 7);
+                                }
+                                5 => {
+                                    content.insert("join_authorised_via_users_server".into(), cj(json!("dave")));
+                                    c.set_member("dave", 1);
+                                }
+                                6 => {
+                                    content.insert("join_authorised_via_users_server".into(), cj(json!(null)));
+                                }
+                                7 => {
+                                    content.insert("join_authorised_via_users_server".into(), cj(json!([DAVE])));
+                                    c.set_member(DAVE, 1);
+                                }
+                                _ => {
+                                    // the creator authorises (level 100 without a power-levels event)
+                                    content.insert("join_authorised_via_users_server".into(), cj(json!(CREATOR)));
+                                    c.set_member(CREATOR, 1);
+                                }
+                            }
+                            let mut ev = c.mk("m.room.member", who, Some(target), content);
+                            ev.prev = match prev {
+                                0 => vec![c.create_id()],
+                                1 => vec![OwnedEventId::try_from(eid(v, "prev")).unwrap()],
+                                2 => vec![],
+                                _ => vec![c.create_id(), OwnedEventId::try_from(eid(v, "prev")).unwrap()],
+                            };
+                            c.ev = ev;
+                            g.emit("sys-join", &c, 5);
+                            // levels of the authorising user against the invite level
+                            if restricted && (au == 1 || au == 8) && prev == 1 && other_target == 0 && (cm == 0 || cm == 3) {
+                                let auth_user = if au == 1 { DAVE } else { CREATOR };
+                                for lvl in [49, 50, 51] {
+                                    for fv in [Lv::Int(50), Lv::Str("50".into()), Lv::Absent, bad_level(lvl as usize)] {
+                                        let base_l = if matches!(fv, Lv::Absent) { lvl - 50 } else { lvl };
+                                        for p in pl_variants(auth_user, base_l, "invite", &fv, None) {
+                                            let mut c2 = c.clone();
+                                            c2.set_pl(Some(p.content()));
+                                            g.emit("sys-join-levels", &c2, 3);
+                                        }
+                                    }
+                                }
+                                for cs in creator_shapes(&c) {
+                                    g.emit("sys-join-creator", &cs, 2);
+                                }
+                            }
+                        }
+                    }
+                }
+            }
+        }
+    }
+}
+
+const PKCS8: &str = "MFECAQEwBQYDK2VwBCIEINjozvdfbsGEt6DD+7Uf4PiJ/YvTNXV2mIPc/tA0T+6tgSEA3TPraTczVkDPTRaX4K+AfUuyx7Mzq1UafTXypnl0t2k";
+
+fn id_server_key() -> ruma_signatures::Ed25519KeyPair {
+    let doc = Base64::<Standard>::parse(PKCS8).unwrap();
+    ruma_signatures::Ed25519KeyPair::from_der(doc.as_bytes(), "0".into()).unwrap()
+}
+
+/// A `signed` object for (mxid, token), really signed by the identity-server key.
+fn signed_object(mxid: &str, token: &str) -> CanonicalJsonObject {
+    let mut o = cobj(json!({"mxid": mxid, "token": token}));
+    ruma_signatures::sign_json("id.s1", &id_server_key(), &mut o).unwrap();
+    o
+}
+
+fn sys_member_invite_3pid(g: &mut Gen<'_>, v: u32) {
+    let pk = Base64::<Standard, _>::new(id_server_key().public_key().to_vec()).encode();
+    let pk_urlsafe = pk.replace('+', "-").replace('/', "_");
+    let good = signed_object(BOB, "tok");
+    let sig = good["signatures"].as_object().unwrap()["id.s1"].as_object().unwrap()["ed25519:0"].as_str().unwrap().to_owned();
+    // shapes of the third_party_invite value
+    let mut tpis: Vec<(&str, CanonicalJsonValue)> = vec![];
+    let wrap = |s: &CanonicalJsonObject| {
+        let mut t = cobj(json!({"display_name": "b"}));
+        t.insert("signed".into(), CanonicalJsonValue::Object(s.clone()));
+        CanonicalJsonValue::Object(t)
+    };
+    tpis.push(("good", wrap(&good)));
+    tpis.push(("null", CanonicalJsonValue::Null));
+    tpis.push(("str", cj(json!("x"))));
+    tpis.push(("empty", cj(json!({}))));
+    tpis.push(("signed-null", cj(json!({"signed": null}))));
+    tpis.push(("signed-str", cj(json!({"signed": "x"}))));
+    tpis.push(("seq", CanonicalJsonValue::Array(vec![CanonicalJsonValue::Object(good.clone())])));
+    tpis.push(("seq2", CanonicalJsonValue::Array(vec![CanonicalJsonValue::Object(good.clone()), cj(json!(1))])));
+    tpis.push(("seq0", cj(json!([]))));
+    let edit = |f: &dyn Fn(&mut CanonicalJsonObject)| {
+        let mut s = good.clone();
+        f(&mut s);
+        wrap(&s)
+    };
+    tpis.push(("no-token", edit(&|s| { s.remove("token"); })));
+    tpis.push(("token-int", edit(&|s| { s.insert("token".into(), cj(json!(1))); })));
+    tpis.push(("no-mxid", edit(&|s| { s.remove("mxid"); })));
+    tpis.push(("mxid-int", edit(&|s| { s.insert("mxid".into(), cj(json!(1))); })));
+    tpis.push(("mxid-other", wrap(&signed_object(ALICE, "tok"))));
+    tpis.push(("token-other", wrap(&signed_object(BOB, "tok2"))));
+    tpis.push(("no-sigs", edit(&|s| { s.remove("signatures"); })));
+    tpis.push(("sigs-int", edit(&|s| { s.insert("signatures".into(), cj(json!(1))); })));
+    tpis.push(("sigs-empty", edit(&|s| { s.insert("signatures".into(), cj(json!({}))); })));
+    tpis.push(("tampered", edit(&|s| { s.insert("extra".into(), cj(json!(1))); })));
+    tpis.push(("badsig", edit(&|s| { s.insert("signatures".into(), cj(json!({"id.s1": {"ed25519:0": "AAAA"}}))); })));
+    tpis.push(("sig-notb64", edit(&|s| { s.insert("signatures".into(), cj(json!({"id.s1": {"ed25519:0": "!!"}}))); })));
+    tpis.push(("sig-int", edit(&|s| { s.insert("signatures".into(), cj(json!({"id.s1": {"ed25519:0": 5}}))); })));
+    tpis.push(("kid-bad", edit(&|s| { s.insert("signatures".into(), cj(json!({"id.s1": {"ed25519": sig}}))); })));
+    tpis.push(("kid-alg", edit(&|s| { s.insert("signatures".into(), cj(json!({"id.s1": {"rsa:0": sig}}))); })));
+    tpis.push(("ent-before", edit(&|s| { s.insert("signatures".into(), cj(json!({"a": 1, "id.s1": {"ed25519:0": sig}}))); })));
+    tpis.push(("ent-after", edit(&|s| { s.insert("signatures".into(), cj(json!({"z": 1, "id.s1": {"ed25519:0": sig}}))); })));
+    tpis.push(("two-ents", edit(&|s| { s.insert("signatures".into(), cj(json!({"a": {"ed25519:0": "AAAA"}, "id.s1": {"ed25519:1": "AAAA", "ed25519:0": sig}}))); })));
+    // shapes of the m.room.third_party_invite event in state
+    let mut tpes: Vec<(&str, Option<CanonicalJsonObject>)> = vec![];
+    tpes.push(("pk", Some(cobj(json!({"public_key": pk, "display_name": "b"})))));
+    tpes.push(("pk-urlsafe", Some(cobj(json!({"public_key": pk_urlsafe})))));
+    tpes.push(("absent", None));
+    tpes.push(("empty", Some(cobj(json!({})))));
+    tpes.push(("pk-null", Some(cobj(json!({"public_key": null, "public_keys": [{"public_key": pk}]})))));
+    tpes.push(("pk-int", Some(cobj(json!({"public_key": 1})))));
+    tpes.push(("pk-other", Some(cobj(json!({"public_key": "AAAA", "public_keys": []})))));
+    tpes.push(("pks", Some(cobj(json!({"public_key": "AAAA", "public_keys": [{"public_key": "!!"}, {"public_key": pk, "key_validity_url": "u"}]})))));
+    tpes.push(("pks-null", Some(cobj(json!({"public_key": pk, "public_keys": null})))));
+    tpes.push(("pks-obj", Some(cobj(json!({"public_key": pk, "public_keys": {}})))));
+    tpes.push(("pks-bad-item", Some(cobj(json!({"public_key": pk, "public_keys": [1]})))));
+    tpes.push(("pks-item-nokey", Some(cobj(json!({"public_key": pk, "public_keys": [{}]})))));
+    tpes.push(("pks-item-null", Some(cobj(json!({"public_key": pk, "public_keys": [{"public_key": null}]})))));
+    tpes.push(("pks-seq", Some(cobj(json!({"public_keys": [[pk]]})))));
+    tpes.push(("pks-seq-bad", Some(cobj(json!({"public_key": pk, "public_keys": [[1]]})))));
+    for (_, tpi) in &tpis {
+        for (_, tpe) in &tpes {
+            for tm in [0usize, 4, 1, 7] {
+                for tpe_sender in [ALICE, CREATOR] {
+                    for sm in [1usize, 0] {
+                        let mut c = Case::base(v);
+                        c.set_member(ALICE, sm);
+                        c.set_member(BOB, tm);
+                        c.set_content("m.room.third_party_invite", "tok", tpe_sender, tpe.clone());
+                        let mut content = cobj(json!({"membership": "invite"}));
+                        content.insert("third_party_invite".into(), tpi.clone());
+                        c.ev = c.mk("m.room.member", ALICE, Some(BOB), content);
+                        g.emit("sys-invite-3pid", &c, 12);
+                    }
+                }
+            }
+        }
+    }
+}
+
+/// invite / leave / kick / unban / ban / knock / unknown memberships.
+fn sys_member_other(g: &mut Gen<'_>, v: u32) {
+    let memberships: Vec<(&str, CanonicalJsonObject)> = vec![
+        ("invite", cobj(json!({"membership": "invite"}))),
+        ("leave", cobj(json!({"membership": "leave"}))),
+        ("ban", cobj(json!({"membership": "ban"}))),
+        ("knock", cobj(json!({"membership": "knock"}))),
+        ("weird", cobj(json!({"membership": "weird"}))),
+        ("caps", cobj(json!({"membership": "Join"}))),
+        ("missing", cobj(json!({"Membership": "join"}))),
+        ("null", cobj(json!({"membership": null}))),
+        ("int", cobj(json!({"membership": 1}))),
+    ];
+    for (mname, mcontent) in &memberships {
+        // who acts on whom, and everybody's current membership, and the join rule
+        for (sender, target) in [(ALICE, ALICE), (ALICE, BOB), (CREATOR, BOB), (ALICE, CREATOR)] {
+            for sm in 0..N_MEMB {
+                for tm in 0..N_MEMB {
+                    if sender == target && tm != 0 {
+                        continue;
+                    }
+                    for jr in 0..N_JR {
+                        if !matches!(*mname, "knock" | "invite") && jr > 0 {
+                            continue;
+                        }
+                        if *mname == "invite" && jr > 1 {
+                            continue;
+                        }
+                        let mut c = Case::base(v);
+                        c.set_jr(jr);
+                        c.set_member(sender, sm);
+                        if sender != target {
+                            c.set_member(target, tm);
+                        }
+                        c.ev = c.mk("m.room.member", sender, Some(target), mcontent.clone());
+                        g.emit("sys-member", &c, 3);
+                        // no power-levels event: creator 100, others 0; also with explicit levels
+                        if matches!(*mname, "invite" | "leave" | "ban") && sm == 1 && sender == ALICE && target == BOB && jr == 0 {
+                            let field: &'static str = match *mname {
+                                "invite" => "invite",
+                                "leave" => "kick",
+                                _ => "ban",
+                            };
+                            for sl in [49i64, 50, 51] {
+                                for tl in [sl - 1, sl, sl + 1] {
+                                    for fv in [Lv::Int(50), Lv::Str("+50".into()), Lv::Absent, bad_level((sl + tl) as usize)] {
+                                        let shift = if matches!(fv, Lv::Absent) && field == "invite" { 50 } else { 0 };
+                                        for p in pl_variants(ALICE, sl - shift, field, &fv, Some((BOB, tl - shift))) {
+                                            let mut c2 = c.clone();
+                                            c2.set_pl(Some(p.content()));
+                                            g.emit("sys-member-levels", &c2, 8);
+                                            if *mname == "leave" && tm == 4 {
+                                                // unban: the ban level matters as well
+                                                for bl in [sl - shift - 1, sl - shift, sl - shift + 1] {
+                                                    for bst in [Lv::Int(bl), Lv::Str(bl.to_string()), bad_level(bl as usize)] {
+                                                        let mut c3 = c.clone();
+                                                        c3.set_pl(Some(p.clone().field("ban", bst).content()));
+                                                        g.emit("sys-unban-levels", &c3, 8);
+                                                    }
+                                                }
+                                            }
+                                        }
+                                    }
+                                }
+                            }
+                            for cs in creator_shapes(&c) {
+                                g.emit("sys-member-creator", &cs, 2);
+                            }
+                        }
+                    }
+                }
+            }
+        }
+    }
+    // state_key shapes of member events
+    for skey in [None, Some(""), Some("bob"), Some("@bob"), Some("@bob:"), Some("@bob:s1"), Some("@b\u{0}b:s1"), Some("@bob:s1:x")] {
+        for m in ["join", "invite", "leave", "ban", "knock"] {
+            let mut c = Case::base(v);
+            c.set_jr(if m == "knock" { 2 } else { 0 });
+            c.set_member(ALICE, 1);
+            c.ev = c.mk("m.room.member", ALICE, skey, cobj(json!({"membership": m})));
+            g.emit("sys-member-skey", &c, 1);
+        }
+    }
+}
+
+/// Events gated by the sender's membership and power level.
+fn gated_kinds(c: &Case) -> Vec<(&'static str, Ev)> {
+    let v = c.v;
+    let mut red = c.mk("m.room.redaction", ALICE, None, cobj(json!({"redacts": eid(v, "target")})));
+    red.redacts = Some(OwnedEventId::try_from(eid(v, "target")).unwrap());
+    vec![
+        ("message", c.mk("m.room.message", ALICE, None, cobj(json!({"body": "x"})))),
+        ("state", c.mk("m.room.topic", ALICE, Some(""), cobj(json!({"topic": "x"})))),
+        ("state-own", c.mk("org.example.x", ALICE, Some(ALICE), cobj(json!({})))),
+        ("state-other", c.mk("org.example.x", ALICE, Some(BOB), cobj(json!({})))),
+        ("state-at", c.mk("org.example.x", ALICE, Some("@"), cobj(json!({})))),
+        ("state-noat", c.mk("org.example.x", ALICE, Some("alice@s1"), cobj(json!({})))),
+        ("tpi", c.mk("m.room.third_party_invite", ALICE, Some("tok"), cobj(json!({"public_key": "AAAA"})))),
+        ("redaction", red),
+        ("aliases", c.mk("m.room.aliases", ALICE, Some("s1"), cobj(json!({"aliases": []})))),
+        ("power", c.mk("m.room.power_levels", ALICE, Some(""), cobj(json!({})))),
+        ("join-rules", c.mk("m.room.join_rules", ALICE, Some(""), cobj(json!({"join_rule": "public"})))),
+    ]
+}
+
+fn sys_gated(g: &mut Gen<'_>, v: u32) {
+    // sender membership x no power-levels event x creator or not
+    for sm in 0..N_MEMB {
+        for is_creator in 0..2 {
+            let mut c = Case::base(v);
+            c.set_member(ALICE, sm);
+            if is_creator == 1 {
+                let ce = c.create_mut();
+                ce.sender = OwnedUserId::try_from(ALICE).unwrap();
+                ce.set_content(cobj(json!({"creator": ALICE})));
+            }
+            for (_, ev) in gated_kinds(&c) {
+                let mut c2 = c.clone();
+                c2.ev = ev;
+                g.emit("sys-gated-nopl", &c2, 1);
+                if sm == 1 {
+                    for cs in creator_shapes(&c2) {
+                        g.emit("sys-gated-creator", &cs, 2);
+                    }
+                }
+            }
+        }
+    }
+    // sender level against the required level, each written in several ways
+    let base = {
+        let mut c = Case::base(v);
+        c.set_member(ALICE, 1);
+        c
+    };
+    for (kind, ev) in gated_kinds(&base) {
+        let ty = ev.ty.to_string();
+        let is_state = ev.skey.is_some();
+        for sl in [49i64, 50, 51] {
+            // required level through events[type]
+            for req in styles(50).into_iter().chain([bad_level(sl as usize)]) {
+                for p in pl_variants(ALICE, sl, "kick", &Lv::Absent, None) {
+                    let p = p.event(&ty, req.clone()).event("m.other", Lv::Int(100));
+                    let mut c = base.clone();
+                    c.ev = ev.clone();
+                    c.set_pl(Some(p.content()));
+                    g.emit("sys-gated-events", &c, 2);
+                }
+            }
+            // through state_default / events_default / invite (third-party invite) / redact, present or absent
+            let field: &'static str = match kind {
+                "tpi" => "invite",
+                _ if is_state => "state_default",
+                _ => "events_default",
+            };
+            for fv in styles(50).into_iter().chain([Lv::Absent, bad_level(sl as usize + 1)]) {
+                let dflt = if field == "state_default" { 50 } else { 0 };
+                let shift = if matches!(fv, Lv::Absent) { 50 - dflt } else { 0 };
+                for p in pl_variants(ALICE, sl - shift, field, &fv, None) {
+                    let mut c = base.clone();
+                    c.ev = ev.clone();
+                    c.set_pl(Some(p.clone().content()));
+                    g.emit("sys-gated-default", &c, 2);
+                    // both defaults present, swapped roles, to catch a mix-up of the two fields
+                    let other: &'static str = if field == "state_default" { "events_default" } else { "state_default" };
+                    let mut c = base.clone();
+                    c.ev = ev.clone();
+                    c.set_pl(Some(p.field(other, Lv::Int(sl - shift + 1)).content()));
+                    g.emit("sys-gated-default2", &c, 3);
+                }
+            }
+        }
+    }
+    // v1-v2 redaction: redact level and the two event-id servers
+    for sl in [49i64, 50, 51] {
+        for rl in [Lv::Int(50), Lv::Str("50".into()), Lv::Absent, bad_level(sl as usize)] {
+            for (own, red) in [("$ev:s1", Some("$t:s1")), ("$ev:s1", Some("$t:s2")), ("$ev:s1", None), ("$ev:s1", Some("$t")), ("$ev", Some("$t")), ("$ev", None), ("$ev:s1:1", Some("$t:s1")), ("$ev:s1:1", Some("$t:s1:1"))]
+            {
+                let mut c = base.clone();
+                let mut ev = c.mk("m.room.redaction", ALICE, None, cobj(json!({})));
+                ev.id = OwnedEventId::try_from(own).unwrap();
+                ev.redacts = red.map(|r| OwnedEventId::try_from(r).unwrap());
+                c.ev = ev;
+                let shift = if matches!(rl, Lv::Absent) { 0 } else { 0 };
+                c.set_pl(Some(Pl::default().user(ALICE, Lv::Int(sl - shift)).field("redact", rl.clone()).field("events_default", Lv::Int(0)).content()));
+                g.emit("sys-redaction", &c, 1);
+            }
+        }
+    }
+    // malformed power-levels events in state, for every gated kind and the member kinds that read levels
+    let bad_pls: Vec<serde_json::Value> = vec![
+        json!({"users": 1}),
+        json!({"users": null}),
+        json!({"users": []}),
+        json!({"users": {"alice": 50}}),
+        json!({"users": {"@alice:s1": 50, "@bad": 1}}),
+        json!({"users": {"@alice:s1": true}}),
+        json!({"users": {"@alice:s1": "x"}}),
+        json!({"users": {"@alice:s1": 50, "@bob:s1": null}}),
+        json!({"users": {"@alice:s1": 50}, "users_default": null}),
+        json!({"users": {"@bob:s1": 50}, "users_default": "x"}),
+        json!({"users": {"@alice:s1": 50}, "events": 1}),
+        json!({"users": {"@alice:s1": 50}, "events": null}),
+        json!({"users": {"@alice:s1": 50}, "events": {"m.room.message": "x"}}),
+        json!({"users": {"@alice:s1": 50}, "events": {"zzz": []}}),
+        json!({"users": {"@alice:s1": 50}, "state_default": null}),
+        json!({"users": {"@alice:s1": 50}, "events_default": {}}),
+        json!({"users": {"@alice:s1": 50}, "ban": []}),
+        json!({"users": {"@alice:s1": 50}, "kick": "k"}),
+        json!({"users": {"@alice:s1": 50}, "invite": false}),
+        json!({"users": {"@alice:s1": 50}, "redact": "r"}),
+        json!({"users": {"@alice:s1": 50}, "notifications": 5}),
+        json!({"users": {"@alice:s1": 50}, "notifications": {"room": "x"}}),
+        json!({"users": {"@alice:s1": "50"}, "state_default": "50", "events": {"m.room.topic": "50"}}),
+        json!({"users": {"@alice:s1": 9007199254740991i64}}),
+        json!({"users": {"@alice:s1": -9007199254740991i64}, "events_default": -9007199254740991i64}),
+    ];
+    for bp in &bad_pls {
+        let mut c = base.clone();
+        c.set_member(BOB, 1);
+        c.set_pl(Some(cobj(bp.clone())));
+        let mut evs: Vec<Ev> = gated_kinds(&c).into_iter().map(|(_, e)| e).collect();
+        for m in ["invite", "leave", "ban"] {
+            evs.push(c.mk("m.room.member", ALICE, Some(BOB), cobj(json!({"membership": m}))));
+        }
+        for ev in evs {
+            let mut c2 = c.clone();
+            c2.ev = ev;
+            g.emit("sys-badpl", &c2, 1);
+            // and with the target banned (unban path reads `ban`)
+            let mut c3 = c2.clone();
+            c3.set_member(BOB, 4);
+            g.emit("sys-badpl", &c3, 2);
+        }
+    }
+    // string-typed levels
+    for s in LEVEL_STRINGS {
+        for k in [-9007199254740991i64, 0, 50, 51, 9007199254740991] {
+            let mut c = base.clone();
+            c.set_pl(Some(Pl::default().user(ALICE, Lv::Str((*s).to_owned())).field("events_default", Lv::Int(k)).content()));
+            g.emit("sys-level-strings", &c, 1);
+            let mut c = base.clone();
+            c.set_pl(Some(Pl::default().user(ALICE, Lv::Int(k)).field("events_default", Lv::Str((*s).to_owned())).content()));
+            g.emit("sys-level-strings", &c, 1);
+        }
+    }
+}
+
+/// m.room.power_levels changes.
+fn sys_power_levels(g: &mut Gen<'_>, v: u32) {
+    const L: i64 = 50;
+    let base = {
+        let mut c = Case::base(v);
+        c.set_member(ALICE, 1);
+        c
+    };
+    let vals = |with_bad: bool| -> Vec<Lv> {
+        let mut x = vec![Lv::Absent, Lv::Int(L - 1), Lv::Int(L), Lv::Int(L + 1), Lv::Str(L.to_string()), Lv::Str((L + 1).to_string())];
+        if with_bad {
+            x.push(bad_level(0));
+            x.push(bad_level(4));
+        }
+        x
+    };
+    let current = || Pl::default().user(ALICE, Lv::Int(L)).field("state_default", Lv::Int(L));
+    let emit = |g: &mut Gen<'_>, tag: &str, cur: Option<Pl>, new: Pl, one_in: usize| {
+        let mut c = base.clone();
+        c.set_pl(cur.map(|p| p.content()));
+        c.ev = c.mk("m.room.power_levels", ALICE, Some(""), new.content());
+        if c.state.iter().all(|((t, _), _)| t != "m.room.power_levels") {
+            // without a current event ALICE has level 0: make her the creator so that she may send state
+            let ce = c.create_mut();
+            ce.sender = OwnedUserId::try_from(ALICE).unwrap();
+            ce.set_content(cobj(json!({"creator": ALICE})));
+        }
+        g.emit(tag, &c, one_in);
+    };
+    // the seven integer fields
+    for f in ["users_default", "events_default", "state_default", "ban", "redact", "kick", "invite"] {
+        for cv in vals(true) {
+            for nv in vals(true) {
+                let (mut cur, mut new) = (current(), current());
+                if f == "state_default" {
+                    cur.fields.clear();
+                    new.fields.clear();
+                    // keep the event sendable: required level through events[]
+                    cur = cur.event("m.room.power_levels", Lv::Int(L));
+                    new = new.event("m.room.power_levels", Lv::Int(L));
+                }
+                let cur = cur.field(f, cv.clone());
+                let new = new.field(f, nv.clone());
+                emit(g, "sys-pl-fields", Some(cur), new.clone(), 2);
+                emit(g, "sys-pl-initial", None, new, 4);
+            }
+        }
+    }
+    // events / notifications / users entries
+    for map in ["events", "notifications", "users"] {
+        for own in 0..2 {
+            let key = match (map, own) {
+                ("users", 1) => ALICE,
+                ("users", _) => BOB,
+                ("events", 1) => "m.room.power_levels",
+                ("events", _) => "m.room.topic",
+                (_, 1) => "room",
+                _ => "x",
+            };
+            for cv in vals(true) {
+                for nv in vals(true) {
+                    let put = |p: Pl, val: &Lv| -> Pl {
+                        if matches!(val, Lv::Absent) {
+                            return p;
+                        }
+                        match map {
+                            "events" => p.event(key, val.clone()),
+                            "notifications" => p.notif(key, val.clone()),
+                            _ => {
+                                let mut p = p;
+                                let users = p.users.get_or_insert_with(Vec::new);
+                                users.retain(|(u, _)| u != key);
+                                users.push((key.to_owned(), val.clone()));
+                                p
+                            }
+                        }
+                    };
+                    let (mut cur, mut new) = (current(), current());
+                    if map == "users" && own == 1 {
+                        // changing one's own entry: the sender's level is the current value
+                        if !matches!(cv, Lv::Int(_) | Lv::Str(_)) {
+                            cur = cur.field("users_default", Lv::Int(L));
+                        }
+                    }
+                    cur = put(cur, &cv);
+                    new = put(new, &nv);
+                    emit(g, "sys-pl-maps", Some(cur), new.clone(), 2);
+                    emit(g, "sys-pl-initial", None, new, 4);
+                }
+            }
+        }
+        // the map itself malformed / absent on either side
+        for cur_bad in 0..4 {
+            for new_bad in 0..4 {
+                let shape = |i: usize| -> Option<CanonicalJsonValue> {
+                    match i {
+                        0 => None,
+                        1 => Some(cj(json!({}))),
+                        2 => Some(cj(json!([]))),
+                        _ => Some(CanonicalJsonValue::Null),
+                    }
+                };
+                let (mut cur, mut new) = (current(), current());
+                if map == "users" {
+                    cur.users = None;
+                    new.users = None;
+                    cur = cur.field("users_default", Lv::Int(L));
+                    new = new.field("users_default", Lv::Int(L));
+                }
+                let k: &'static str = match map {
+                    "events" => "events",
+                    "notifications" => "notifications",
+                    _ => "users",
+                };
+                if let Some(x) = shape(cur_bad) {
+                    cur.extra.push((k, x));
+                }
+                if let Some(x) = shape(new_bad) {
+                    new.extra.push((k, x));
+                }
+                emit(g, "sys-pl-mapshape", Some(cur), new.clone(), 1);
+                emit(g, "sys-pl-initial", None, new, 2);
+            }
+        }
+    }
+    // user-id keys of the new users map
+    for key in ["@x:s1", "x", "@x", "@x:", "@:s1", "@x:s1:99999", "@x:s1:80", "@x\u{0}:s1", "@X Y:s1", "x:s1"] {
+        let new = current().user(key, Lv::Int(0));
+        emit(g, "sys-pl-userkeys", Some(current()), new.clone(), 1);
+        emit(g, "sys-pl-userkeys", None, new, 1);
+    }
+}
+
+/// ruma's `TimelineEventType` maps this pre-standard name to `m.call.sdp_stream_metadata_changed`
+/// (open finding C08-type-alias): `events` entries under the alias apply to the standard type.
+pub const TYPE_ALIAS: &str = "org.matrix.call.sdp_stream_metadata_changed";
+pub const TYPE_ALIASED: &str = "m.call.sdp_stream_metadata_changed";
+
+fn sys_type_alias(g: &mut Gen<'_>, v: u32) {
+    for (key, ty) in [(TYPE_ALIAS, TYPE_ALIASED), (TYPE_ALIASED, TYPE_ALIASED), (TYPE_ALIAS, "m.room.message")] {
+        for lvl in [49i64, 50, 51] {
+            let mut c = Case::base(v);
+            c.set_member(ALICE, 1);
+            c.set_pl(Some(Pl::default().user(ALICE, Lv::Int(lvl)).event(key, Lv::Int(50)).content()));
+            c.ev = c.mk(ty, ALICE, None, cobj(json!({})));
+            g.emit("sys-type-alias", &c, 1);
+        }
+    }
+}
+
+fn sys_misc(g: &mut Gen<'_>, v: u32) {
+    // aliases with every sender membership (v6+ falls through to the generic rules)
+    for sm in 0..N_MEMB {
+        for skey in [None, Some("s1"), Some("s2"), Some(""), Some(ALICE)] {
+            let mut c = Case::base(v);
+            c.set_member(ALICE, sm);
+            c.ev = c.mk("m.room.aliases", ALICE, skey, cobj(json!({"aliases": []})));
+            g.emit("sys-aliases", &c, 1);
+        }
+    }
+}
+
+// ---------------------------------------------------------------------------------------------
+// Random structured stream: random worlds over the same vocabulary, plus garbage mutations
+// ---------------------------------------------------------------------------------------------
+fn rand_level(r: &mut Rng) -> Lv {
+    match r.below(10) {
+        0 => Lv::Absent,
+        1..=4 => Lv::Int([0, 49, 50, 51, 100, -1, 99, 101][r.below(8)]),
+        5..=6 => Lv::Str((*r.pick(LEVEL_STRINGS)).to_owned()),
+        7 => Lv::Str([49, 50, 51, 100][r.below(4)].to_string()),
+        8 => bad_level(r.below(7)),
+        _ => Lv::Raw(gen_json(r, 1)),
+    }
+}
+
+fn rand_pl(r: &mut Rng) -> CanonicalJsonObject {
+    let mut p = Pl::default();
+    for f in ["users_default", "events_default", "state_default", "ban", "redact", "kick", "invite"] {
+        if r.chance(1, 3) {
+            p = p.field(f, rand_level(r));
+        }
+    }
+    if r.chance(3, 4) {
+        for u in [ALICE, BOB, CREATOR, DAVE, EVE, "bad", "@x:s1"] {
+            if r.chance(1, 3) {
+                p = p.user(u, rand_level(r));
+            }
+        }
+        if p.users.is_none() && r.chance(1, 2) {
+            p.users = Some(vec![]);
+        }
+    }
+    if r.chance(1, 2) {
+        for t in ["m.room.message", "m.room.topic", "m.room.power_levels", "m.room.member", "org.example.x", "m.room.redaction", "m.room.third_party_invite", "m.room.aliases"] {
+            if r.chance(1, 4) {
+                p = p.event(t, rand_level(r));
+            }
+        }
+    }
+    if r.chance(1, 3) {
+        for t in ["room", "x"] {
+            if r.chance(1, 2) {
+                p = p.notif(t, rand_level(r));
+            }
+        }
+    }
+    let mut o = p.content();
+    if r.chance(1, 12) {
+        let k = *r.pick(&["users", "events", "notifications", "ban", "users_default"]);
+        o.insert(k.to_owned(), gen_json(r, 2));
+    }
+    o
+}
+
+fn rand_case(r: &mut Rng) -> Case {
+    let v = 1 + r.below(11) as u32;
+    let mut c = Case::base(v);
+    let users = [ALICE, BOB, CREATOR, DAVE, EVE];
+    for u in users {
+        let m = if r.chance(1, 2) { 1 } else { r.below(N_MEMB) };
+        c.set_member(u, m);
+    }
+    if r.chance(4, 5) {
+        c.set_jr(r.below(N_JR));
+    }
+    if r.chance(2, 3) {
+        c.set_pl(Some(rand_pl(r)));
+    }
+    // create event variations
+    {
+        let who = *r.pick(&users);
+        let ce = c.create_mut();
+        let mut content = ce.content.clone();
+        match r.below(10) {
+            0 => {
+                content.remove("creator");
+            }
+            1 => {
+                content.insert("creator".into(), gen_json(r, 1));
+            }
+            2..=4 => {
+                content.insert("creator".into(), cj(json!(who)));
+            }
+            _ => {}
+        }
+        if r.chance(1, 4) {
+            content.insert("m.federate".into(), federate_value(r.below(6)).unwrap_or(CanonicalJsonValue::Null));
+        }
+        if r.chance(1, 4) {
+            ce.sender = OwnedUserId::try_from(who).unwrap();
+        }
+        ce.set_content(content);
+    }
+    if r.chance(1, 30) {
+        c.set("m.room.create", "", None);
+    }
+    let sender = *r.pick(&users);
+    let target = *r.pick(&users);
+    let kind = r.below(12);
+    let mut ev = match kind {
+        0..=4 => {
+            let m = *r.pick(&["join", "invite", "leave", "ban", "knock", "weird"]);
+            let mut content = cobj(json!({"membership": m}));
+            if r.chance(1, 4) {
+                content.insert("join_authorised_via_users_server".into(), if r.chance(4, 5) { cj(json!(*r.pick(&users))) } else { gen_json(r, 1) });
+            }
+            if r.chance(1, 8) {
+                let s = signed_object(target, "tok");
+                let mut t = CanonicalJsonObject::new();
+                t.insert("signed".into(), CanonicalJsonValue::Object(s));
+                content.insert("third_party_invite".into(), if r.chance(3, 4) { CanonicalJsonValue::Object(t) } else { gen_json(r, 2) });
+                let pk = Base64::<Standard, _>::new(id_server_key().public_key().to_vec()).encode();
+                c.set_content("m.room.third_party_invite", "tok", *r.pick(&users), Some(cobj(json!({"public_key": pk}))));
+            }
+            let who = if r.chance(1, 2) { sender } else { target };
+            c.mk("m.room.member", sender, Some(who), content)
+        }
+        5 => c.mk("m.room.power_levels", sender, Some(""), rand_pl(r)),
+        6 => c.mk("m.room.message", sender, None, cobj(json!({"body": "x"}))),
+        7 => c.mk("m.room.topic", sender, Some(""), cobj(json!({"topic": "x"}))),
+        8 => c.mk("org.example.x", sender, Some(target), cobj(json!({}))),
+        9 => c.mk("m.room.third_party_invite", sender, Some("tok"), cobj(json!({"public_key": "AAAA"}))),
+        10 => {
+            let mut e = c.mk("m.room.redaction", sender, None, cobj(json!({})));
+            e.redacts = Some(OwnedEventId::try_from(*r.pick(&["$t:s1", "$t:s2", "$t"])).unwrap());
+            e
+        }
+        _ => c.mk("m.room.aliases", sender, Some(*r.pick(&["s1", "s2", ""])), cobj(json!({}))),
+    };
+    match r.below(8) {
+        0 => ev.prev = vec![c.create_id()],
+        1 => ev.prev = vec![],
+        _ => {}
+    }
+    if r.chance(1, 20) {
+        ev.auth = vec![];
+    }
+    c.ev = ev;
+    c
+}
+
+/// Single-edit mutants: replace one content value somewhere by random JSON.
+fn mutate(r: &mut Rng, c: &mut Case) {
+    let n = c.state.len();
+    let which = r.below(n + 1);
+    let e: &mut Ev = if which == n { &mut c.ev } else { &mut c.state[which].1 };
+    let mut content = e.content.clone();
+    let keys: Vec<String> = content.keys().cloned().collect();
+    match r.below(4) {
+        0 if !keys.is_empty() => {
+            let k = r.pick(&keys).clone();
+            content.insert(k, gen_json(r, 2));
+        }
+        1 if !keys.is_empty() => {
+            let k = r.pick(&keys).clone();
+            content.remove(&k);
+        }
+        2 => {
+            content.insert(gen_str(r), gen_json(r, 1));
+        }
+        _ => {
+            let k = *r.pick(&["membership", "join_rule", "users", "events", "creator", "m.federate", "third_party_invite", "ban", "users_default"]);
+            content.insert(k.to_owned(), gen_json(r, 2));
+        }
+    }
+    e.set_content(content);
+}
+
+pub fn generate(tier: &str, seed: u64, sink: &mut dyn FnMut(&str, &Case)) {
+    let thorough = tier == "thorough";
+    let mut g = Gen { thorough, rng: Rng::new(seed ^ 0xC08), sink, n: 0 };
+    for v in 1..=11u32 {
+        sys_create(&mut g, v);
+        sys_preamble(&mut g, v);
+        sys_member_join(&mut g, v);
+        sys_member_invite_3pid(&mut g, v);
+        sys_member_other(&mut g, v);
+        sys_gated(&mut g, v);
+        sys_power_levels(&mut g, v);
+        sys_misc(&mut g, v);
+        sys_type_alias(&mut g, v);
+    }
+    let n_random = if thorough { 400_000 } else { 12_000 };
+    let mut r = Rng::new(seed ^ 0xC08_0001);
+    for _ in 0..n_random {
+        let c = rand_case(&mut r);
+        (g.sink)("random", &c);
+    }
+    let mut r = Rng::new(seed ^ 0xC08_0002);
+    for _ in 0..n_random / 3 {
+        let mut c = rand_case(&mut r);
+        mutate(&mut r, &mut c);
+        if r.chance(1, 3) {
+            mutate(&mut r, &mut c);
+        }
+        (g.sink)("malformed", &c);
+    }
+}
+
+pub fn run(tier: &str, seed: u64, em: &mut Emitter) {
+    let mut sink = |tag: &str, c: &Case| {
+        let (out, _) = run_auth(c.v, &c.ev, &c.state);
+        em.emit(tag, case_sx(c), out);
+    };
+    generate(tier, seed, &mut sink);
+}
+
+pub fn replay(case: &Sx) -> Option<Sx> {
+    let c = sx_to_case(case)?;
+    Some(run_auth(c.v, &c.ev, &c.state).0)
+}
+
+/// Probe the compiled `TimelineEventType::from` with every string literal of ruma-events'
+/// `event_enum!` declaration; record the ones that do not come back as themselves (aliases).
+pub fn dump(dir: &str) {
+    let src = std::fs::read_to_string("/repo/crates/ruma-events/src/enums.rs").unwrap_or_default();
+    let mut lits: Vec<String> = vec![];
+    // every quote-delimited segment is a candidate (robust against a stray quote in a comment)
+    for lit in src.split('"') {
+        if !lit.is_empty() && lit.len() < 100 && lit.bytes().all(|b| b > 32 && b < 127 && b != b'\\') {
+            lits.push(lit.to_owned());
+        }
+    }
+    lits.sort();
+    lits.dedup();
+    let mut out = String::new();
+    for l in &lits {
+        let back = TimelineEventType::from(l.as_str()).to_string();
+        if &back != l {
+            out.push_str(&format!("{l}\t{back}\n"));
+        }
+    }
+    std::fs::write(format!("{dir}/type_aliases.txt"), out).unwrap();
+}
